@@ -195,3 +195,25 @@ Theorem C19_relative_to_gives_back_what_was_appended : forall a b,
   Shell.PathAlg.canon_tail b = true -> Shell.PathAlg.relative_to (a ++ b) a = Some b.
 Proof. exact Shell.PathAlg.relative_to_joined. Qed.
 Print Assumptions C19_relative_to_gives_back_what_was_appended.
+
+(* FatPath.resolve(), with which rmdir and rename find the directory that HOLDS an entry and rename tests for a move
+   into the directory itself: no "." or ".." is left, a path without them is unchanged, the function is idempotent
+   (the code's leftmost-first elimination is the stack machine of Shell/PathAlg.v: compared with the real method) *)
+Theorem C19_resolve_dot_free : forall parts r, Shell.PathAlg.resolve_parts parts = Some r ->
+  exists rest, r = [] :: rest /\ Shell.PathAlg.dot_free rest = true.
+Proof. exact Shell.PathAlg.resolve_dot_free. Qed.
+Print Assumptions C19_resolve_dot_free.
+
+Theorem C19_resolve_identity_without_dots : forall rest, Shell.PathAlg.dot_free rest = true ->
+  Shell.PathAlg.resolve_parts ([] :: rest) = Some ([] :: rest).
+Proof. exact Shell.PathAlg.resolve_id. Qed.
+Print Assumptions C19_resolve_identity_without_dots.
+
+Theorem C19_resolve_idempotent : forall parts r, Shell.PathAlg.resolve_parts parts = Some r -> Shell.PathAlg.resolve_parts r = Some r.
+Proof. exact Shell.PathAlg.resolve_idempotent. Qed.
+Print Assumptions C19_resolve_idempotent.
+
+Example C19_resolve_examples :
+  Shell.PathAlg.resolve_parts [[]; [97]; [98]; [46; 46]; [99]] = Some [[]; [97]; [99]] /\
+  Shell.PathAlg.resolve_parts [[]; [97]; [98]; [99]; [100]; [46; 46]; [101]] = Some [[]; [97]; [98]; [99]; [101]].
+Proof. split; reflexivity. Qed.
